@@ -112,7 +112,8 @@ export function renderType(t) {
       return parts.length === 0 ? "{}" : `{ ${parts.join("; ")} }`;
     }
     case "union":
-      return t.ts.map((x) => wrap(x, "union")).join(" | ");
+      // a member may carry a comment of its own: `| /** doc */ { ... }`
+      return t.ts.map((x) => (x.mdoc ? (x.mdoc.kind === "line" ? `\n// ${x.mdoc.text}\n` : renderDoc(x.mdoc).trimEnd() + " ") : "") + wrap(x, "union")).join(" | ");
     case "inter":
       return t.ts.map((x) => wrap(x, "inter")).join(" & ");
     case "paren":
